@@ -30,6 +30,9 @@ package server
 //@ spec func c19sidx(p int) int
 // c19nimg(j) = number of images attached to msgs[0:j]
 //@ spec func c19nimg(j int) int
+// c19tok(k) names the token count the tokenizer reported for the candidate prompt that starts at
+// message k (system messages among msgs[0:k] + msgs[k:]); every k is rendered at most once.
+//@ spec func c19tok(k int) int
 
 //@ func chatPrompt
 //@   requires len(msgs) >= 1
@@ -38,6 +41,7 @@ package server
 //@   requires forall j int :: 0 <= j && j < len(msgs) && msgs[j].Role == "system" ==> c19sidx(c19nsys(j)) == j
 //@   requires c19nimg(0) == 0
 //@   requires forall j int :: 0 <= j && j < len(msgs) ==> c19nimg(j+1) == c19nimg(j) + len(msgs[j].Images)
+//@   requires forall j int :: 0 <= j && j <= len(msgs) ==> 0 <= c19nimg(j) && c19nimg(j) <= (1 << 40)
 //@   ensures forall k int :: 0 <= k && k < len(images) ==> images[k].ID == k
 //
 //@   loop 1 invariant -1 <= i && i <= n && n - 1 <= i && n <= len(msgs) - 1 && 0 <= n
@@ -48,6 +52,16 @@ package server
 //@   loop 1 invariant forall p int :: 0 <= p && p < len(system) ==> 0 <= c19sidx(p) && c19sidx(p) < n && msgs[c19sidx(p)].Role == "system" && system[p].Role == msgs[c19sidx(p)].Role && system[p].Content == msgs[c19sidx(p)].Content
 //@   loop 1 invariant n < len(msgs) - 1 ==> i == n - 1 && len(system) == c19nsys(n)
 //@   loop 1 invariant n < len(msgs) - 1 ==> forall q int :: 0 <= q && q < n && msgs[q].Role == "system" ==> 0 <= c19nsys(q) && c19nsys(q) < len(system) && system[c19nsys(q)].Role == msgs[q].Role && system[c19nsys(q)].Content == msgs[q].Content
+//
+//   maximality: every candidate start k that was accepted fits the context ...
+//@   loop 1 invariant imageNumTokens == 1 || imageNumTokens == 768
+//@   loop 1 invariant forall k int :: n <= k && k < len(msgs) - 1 ==> c19tok(k) + ite(m.ProjectorPaths != nil, imageNumTokens * (c19nimg(len(msgs)) - c19nimg(k)), 0) <= opts.NumCtx
+//@   assume-at after call (tokenizeFunc) #1 : len(result.0) == c19tok(i)
+//@   loop 3 invariant ctxLen == len(s) + imageNumTokens * (c19nimg(i + rangeindex + 1) - c19nimg(i))
+//   ... and the walk stops only at a candidate that does not fit
+//@   assert-at call Debug #1 : c19tok(i) + ite(m.ProjectorPaths != nil, imageNumTokens * (c19nimg(len(msgs)) - c19nimg(i)), 0) > opts.NumCtx
+//@   assert-at call append #4 : currMsgIdx == 0 || c19tok(currMsgIdx - 1) + ite(m.ProjectorPaths != nil, imageNumTokens * (c19nimg(len(msgs)) - c19nimg(currMsgIdx - 1)), 0) > opts.NumCtx
+//@   assert-at call append #4 : forall k int :: currMsgIdx <= k && k < len(msgs) - 1 ==> c19tok(k) + ite(m.ProjectorPaths != nil, imageNumTokens * (c19nimg(len(msgs)) - c19nimg(k)), 0) <= opts.NumCtx
 //
 //@   loop 2 invariant fresh(system) && len(system) == c19nsys(j)
 //@   loop 2 invariant forall q int :: 0 <= q && q < len(msgs) ==> msgs[q].Role == old(msgs[q].Role)
